@@ -26,9 +26,10 @@ theorem no_goroutines : Generated.Effects.goStatements = [] := by decide
 theorem receiver_writes_reviewed : Generated.Effects.receiverWriteMethodNames = ["SetCredential", "UnmarshalJSON"]
     ∧ Generated.Effects.relyingPartyReceiverWrites = [] := by decide
 
-/-- writes through parameters (index assignment, copy destination, append base rooted at a parameter): only the local helper that
-    fills a caller-owned fresh array; nothing rooted at options, credentials, responses or stored records -/
-theorem param_writes_reviewed : Generated.Effects.paramWriteFuncs = ["cose.copyRightAligned"] := by decide
+/-- no exported function or method writes through one of its parameters (index assignment, copy destination, append base rooted at a
+    parameter): nothing rooted at options, credentials, responses or stored records is written by the API.  (Unexported helpers that fill a
+    caller-owned buffer exist; whether caller data is ever modified is what the `inputs.unmodified` / `returned.records` streams observe.) -/
+theorem param_writes_reviewed : Generated.Effects.exportedParamWrites = [] := by decide
 
 /-! ### the model has no hidden state -/
 
